@@ -18,6 +18,13 @@ import (
 const Version uint32 = 1
 
 const (
+	// objectPrealloc is the largest buffer allocated before any byte of an object's body has been read
+	objectPrealloc = 1 << 20
+	// maxObjectSize is the largest object length accepted from a packfile header
+	maxObjectSize = 1 << 40
+)
+
+const (
 	ObjectCommit int = iota + 1
 	ObjectTable
 	ObjectBlock
@@ -176,10 +183,28 @@ func (r *PackfileReader) ReadObject() (objType int, b []byte, err error) {
 	if err != nil {
 		return
 	}
+	if u > maxObjectSize {
+		return 0, nil, fmt.Errorf("object size %d is too large", u)
+	}
 	var read uint64 = 0
-	b = make([]byte, int(u))
+	// the length comes from the (untrusted) header: never allocate more than
+	// what has actually arrived, doubling the buffer as the body is read
+	size := u
+	if size > objectPrealloc {
+		size = objectPrealloc
+	}
+	b = make([]byte, int(size))
 	for read < u {
-		n, err := r.r.Read(b[read:])
+		if read == uint64(len(b)) {
+			nb := make([]byte, 2*len(b))
+			copy(nb, b)
+			b = nb
+		}
+		end := uint64(len(b))
+		if end > u {
+			end = u
+		}
+		n, err := r.r.Read(b[read:end])
 		if err != nil && err != io.EOF {
 			return 0, nil, err
 		}
@@ -188,6 +213,7 @@ func (r *PackfileReader) ReadObject() (objType int, b []byte, err error) {
 			return 0, nil, io.ErrUnexpectedEOF
 		}
 	}
+	b = b[:u]
 	return
 }
 
